@@ -16,6 +16,7 @@ import (
 	"net"
 	"net/url"
 	"os"
+	"runtime"
 	"sync"
 	"time"
 
@@ -178,6 +179,9 @@ func vNewWire(chunks ...string) *vWire { return &vWire{chunks: chunks, failWrite
 
 // Read delivers the next chunk (or the rest of a chunk larger than p).
 func (w *vWire) Read(p []byte) (int, error) {
+	if w.closed > 0 {
+		return 0, errors.New("vWire: use of closed connection")
+	}
 	for w.pos < len(w.chunks) && w.off >= len(w.chunks[w.pos]) {
 		w.pos++
 		w.off = 0
@@ -185,6 +189,9 @@ func (w *vWire) Read(p []byte) (int, error) {
 	if w.pos >= len(w.chunks) {
 		if w.hold != nil {
 			<-w.hold
+			if w.closed > 0 {
+				return 0, errors.New("vWire: use of closed connection")
+			}
 		}
 		if w.readErr != nil {
 			return 0, w.readErr
@@ -419,3 +426,12 @@ func vInstallDialer(d *vDialer) {
 	vTheDialer = d
 	proxy.RegisterDialerType("vtest", func(*url.URL, proxy.Dialer) (proxy.Dialer, error) { return vTheDialer, nil })
 }
+
+// vYield: a point at which the executor's scheduler may switch to another goroutine.
+func vYield() { runtime.Gosched() }
+
+// vYieldKinds selects which visible operations are preemption points in the executor.
+func vYieldKinds(kinds string) {}
+
+// vBlockedGo: number of goroutines the executor's scheduler holds blocked (-1 natively).
+func vBlockedGo() int { return -1 }
